@@ -58,13 +58,50 @@ Definition fl_eqb (a b : fl) : bool :=
   end.
 Definition width_eqb (a b : width) : bool :=
   match a, b with W8, W8 | W16, W16 | W32, W32 | W64, W64 | WInt, WInt => true | _, _ => false end.
-Definition val_eqb (a b : val) : bool :=
+Fixpoint val_eqb (a b : val) {struct a} : bool :=
   match a, b with
   | VBool x, VBool y => Bool.eqb x y
   | VInt w x, VInt w' y => width_eqb w w' && (x =? y)
   | VUint w x, VUint w' y => width_eqb w w' && (x =? y)
   | VFloat s f _ _, VFloat s' g _ _ => Bool.eqb s s' && fl_eqb f g
   | VStr x, VStr y => str_eqb x y
+  (* containers: same type, same nil-ness, same length, elements deeply equal *)
+  | VSlice n1 _ t1 l1, VSlice n2 _ t2 l2 =>
+    str_eqb t1 t2 && Bool.eqb n1 n2 &&
+    (fix go (l1 l2 : list val) {struct l1} : bool :=
+       match l1, l2 with
+       | [], [] => true
+       | x :: r, y :: s => val_eqb x y && go r s
+       | _, _ => false
+       end) l1 l2
+  | VArray _ t1 l1, VArray _ t2 l2 =>
+    str_eqb t1 t2 &&
+    (fix go (l1 l2 : list val) {struct l1} : bool :=
+       match l1, l2 with
+       | [], [] => true
+       | x :: r, y :: s => val_eqb x y && go r s
+       | _, _ => false
+       end) l1 l2
+  | VMap n1 _ t1 e1, VMap n2 _ t2 e2 =>
+    str_eqb t1 t2 && Bool.eqb n1 n2 && (length e1 =? length e2)%nat &&
+    (fix go (e1 : list (val * val)) {struct e1} : bool :=
+       match e1 with
+       | [] => true
+       | (k, x) :: r => existsb (fun e => val_eqb k (fst e) && val_eqb x (snd e)) e2 && go r
+       end) e1
+  | VStruct s1 f1, VStruct s2 f2 =>
+    str_eqb (s_tstr s1) (s_tstr s2) &&
+    (fix go (f1 f2 : list (finfo * val)) {struct f1} : bool :=
+       match f1, f2 with
+       | [], [] => true
+       | (_, x) :: r, (_, y) :: s => val_eqb x y && go r s
+       | _, _ => false
+       end) f1 f2
+  | VPtr x, VPtr y => val_eqb x y
+  | VNilPtr t1, VNilPtr t2 => str_eqb t1 t2
+  | VIface (Some x), VIface (Some y) => val_eqb x y
+  | VIface None, VIface None => true
+  | VTime z1, VTime z2 => z1 && z2
   | _, _ => false
   end.
 
